@@ -31,7 +31,7 @@ MtlBases == { [losses |-> <<L1, L2>>, feats |-> <<F>>, tparams |-> << <<T1>>, <<
               [losses |-> <<L1>>, feats |-> <<F>>, tparams |-> << <<T1>> >>, shared |-> <<A, Bb>>] }
 
 BwdFaults == {"none", "chunk", "empty_tensors", "dup_tensor", "nonleaf_param", "nograd_param",
-              "agg_wrong_len", "agg_too_few_rows"}
+              "agg_wrong_len", "agg_too_few_rows", "agg_nonfinite"}
 MtlFaults == {"none", "chunk", "empty_features", "empty_losses", "nonscalar_loss", "len_mismatch",
               "overlap", "dup_feature", "dup_shared", "dup_taskparam", "nonleaf_shared", "nograd_shared",
               "nonleaf_taskparam", "nograd_taskparam"}
@@ -48,6 +48,10 @@ BwdScenarios ==
                                      : p \in 1..(Len(b.inputs) + 1), k \in {0, 1}}
         [] f = "nograd_param"  -> {[fn |-> "backward", fault |-> f, tensors |-> b.tensors, inputs |-> InsertAt(b.inputs, p, Ee), k |-> 0, agg |-> "constant"]
                                      : p \in 1..(Len(b.inputs) + 1)}
+        [] f = "agg_nonfinite" -> {[fn |-> "backward", fault |-> f, tensors |-> b.tensors, inputs |-> b.inputs, k |-> k, agg |-> a]
+                                     : k \in {0, 1}, a \in {"constant_on_nan", "constant_on_inf", "constant_on_ninf"}}
+                                  \* a valid aggregator, but the Jacobian has a non-finite entry next to finite ones (the first
+                                  \* entry of leaf b is nan / +inf / -inf and every base differentiates a product with b)
         [] f = "agg_wrong_len" -> {[fn |-> "backward", fault |-> f, tensors |-> b.tensors, inputs |-> b.inputs, k |-> k, agg |-> "constant_wrong_len"] : k \in {0, 1}}
         [] f = "agg_too_few_rows" -> {[fn |-> "backward", fault |-> f, tensors |-> b.tensors, inputs |-> b.inputs, k |-> 0, agg |-> a]
                                      : a \in {"krum_too_few", "trimmed_too_few", "krum_one_short"}     \* far too few rows / exactly one short
@@ -104,7 +108,7 @@ StepsOf(s) ==
       << Chk({"chunk"}), Chk({"empty_tensors"}),
          Chk({"nonleaf_param", "nograd_param"}),                 \* up-front validation of ALL inputs
          Chk({"dup_tensor"}),                                    \* construction of the transforms
-         Chk({"agg_wrong_len", "agg_too_few_rows"}),             \* Init, Diagonalize, Jac, Aggregate
+         Chk({"agg_wrong_len", "agg_too_few_rows", "agg_nonfinite"}),             \* Init, Diagonalize, Jac, Aggregate
          Wr(Range(s.inputs) \cap GradLeaves) >>                  \* Accumulate: last stage
     ELSE
       << Chk({"chunk"}), Chk({"empty_features"}), Chk({"overlap"}), Chk({"nonscalar_loss"}),
